@@ -30,7 +30,7 @@ pub fn def() -> PropDef {
     PropDef {
         id: "C10",
         level: "fault_enumeration",
-        rule: "(A) the real acceptor (BobState::run over an in-memory duplex stream, backed by a real store actor) against a scripted initiator that owns a real replica and at every step chooses from {correct next frame, replay previous frame, Init again, Sync now, Abort(3 reasons), garbage frame with valid length, oversized length prefix, cut inside the next correct frame, close}: every script of <= d steps x accept callback {Allow, Reject(NotFound|AlreadySyncing|InternalServerError)}; (B) the real initiator (run_alice) against a scripted acceptor with the mirrored menu; (C) real initiator against real acceptor through a frame relay that injects one local fault {close the document, disable sync, shut the store actor down} on either side before its k-th incoming frame (and before the first outgoing one), for every k; oracle: both ends return Ok or Err within the deadline, no panic, BobState::into_outcome() callable after every outcome and the document of an accepted session still known (namespace()) so that its end can be reported, a declined request leaves the acceptor's store unchanged, counters mirror when both ends return Ok; non-trivial = scenarios with at least one deviation from the correct protocol or one injected fault",
+        rule: "(A) the real acceptor (BobState::run over an in-memory duplex stream, backed by a real store actor) against a scripted initiator that owns a real replica and at every step chooses from {correct next frame, replay previous frame, Init again, Sync now, Abort(3 reasons), garbage frame with valid length, oversized length prefix, cut inside the next correct frame, close}: every script of <= d steps x accept callback {Allow, Reject(NotFound|AlreadySyncing|InternalServerError)}; (B) the real initiator (run_alice) against a scripted acceptor with the mirrored menu; (C) real initiator against real acceptor through a frame relay that injects one local fault {close the document, disable sync, shut the store actor down} on either side before its k-th incoming frame (and before the first outgoing one), for every k; oracle: both ends return Ok or Err within the deadline, no panic, BobState::into_outcome() callable after every outcome and the document of an accepted session still known (namespace()) so that its end can be reported, a declined request leaves the acceptor's store unchanged, a side whose document was closed / taken out of sync / whose actor was stopped before a frame it has to process reports an error, counters mirror when both ends return Ok; non-trivial = scenarios with at least one deviation from the correct protocol or one injected fault",
         assumptions: &[
             "deadlines are hang detectors only: a scenario that exceeds 5 s is re-run once with 50 s and must hang again to count",
             "the transport is an in-memory duplex stream; QUIC stream semantics (finish/stopped) are outside",
@@ -243,6 +243,8 @@ struct Observed {
     /// the accept callback answered Allow, but afterwards the acceptor cannot name the document
     /// of the session (BobState::namespace() / AcceptError::namespace() is None)
     accepted_session_without_namespace: bool,
+    /// (initiator returned Ok, acceptor returned Ok) for real-vs-real scenarios
+    both_ok: Option<(bool, bool)>,
 }
 
 const DEADLINE: Duration = Duration::from_secs(5);
@@ -602,6 +604,7 @@ async fn scenario_fault(
             match (a, b) {
                 (Ok(ar), Ok((br, out, lost_ns))) => {
                     obs.accepted_session_without_namespace = lost_ns;
+                    obs.both_ok = Some((ar.is_ok(), br.is_ok()));
                     obs.sut_result = format!(
                         "alice={} bob={}",
                         ar.as_ref().map(|_| "Ok".to_string()).unwrap_or_else(|e| format!("Err({e})")),
@@ -673,11 +676,38 @@ fn judge(obs: &Observed, what: &str) -> Vec<(&'static str, Value, String)> {
     bad
 }
 
+/// A local fault before a frame that the faulted side has to process must make that side fail:
+/// a closed document, disabled sync or a stopped actor cannot take part in reconciliation.
+fn judge_fault(case: &Case, obs: &Observed, what: &str) -> Vec<(&'static str, Value, String)> {
+    let mut bad = vec![];
+    if let Case::Fault { side, fault: Some((_, f)), must_fail: true, .. } = case {
+        if let Some((a_ok, b_ok)) = obs.both_ok {
+            let ok = if *side == 0 { a_ok } else { b_ok };
+            if ok {
+                bad.push((
+                    "local_fault_stops_the_session",
+                    json!({"fault": format!("{f:?}"), "side": side}),
+                    format!("{what}: the {} reported success although its document was {} before a message it had to process ({})", if *side == 0 { "initiator" } else { "acceptor" }, match f { Fault::CloseDoc => "closed", Fault::DisableSync => "taken out of sync", Fault::Shutdown => "shut down (actor)" }, obs.sut_result),
+                ));
+            }
+        }
+    }
+    bad
+}
+
 #[derive(Debug, Clone, Serialize, Deserialize)]
 enum Case {
     Bob { script: Vec<Choice>, accept: Accept, variant: u8 },
     Alice { script: Vec<Choice>, variant: u8 },
-    Fault { variant: u8, side: u8, fault: Option<(usize, Fault)> },
+    Fault {
+        variant: u8,
+        side: u8,
+        fault: Option<(usize, Fault)>,
+        /// the fault falls before a frame that side really has to process: the gate in the store
+        /// actor must make that side fail
+        #[serde(default)]
+        must_fail: bool,
+    },
 }
 
 fn run_case(case: &Case) -> (Observed, String) {
@@ -686,7 +716,7 @@ fn run_case(case: &Case) -> (Observed, String) {
             match case {
                 Case::Bob { script, accept, variant } => scenario_bob(script, *accept, *variant, deadline).await,
                 Case::Alice { script, variant } => scenario_alice(script, *variant, deadline).await,
-                Case::Fault { variant, side, fault } => scenario_fault(*variant, *side, *fault, deadline).await.0,
+                Case::Fault { variant, side, fault, .. } => scenario_fault(*variant, *side, *fault, deadline).await.0,
             }
         })
     };
@@ -711,6 +741,9 @@ fn one(report: &mut Report, case: Case, nontrivial: bool, ordinal: u64) {
                 report.count("complete_sessions_with_mirrored_counters_checked", 1);
             }
             for (o, w, d) in judge(&obs, &what) {
+                report.violation(o, w, cj.clone(), d, ordinal);
+            }
+            for (o, w, d) in judge_fault(&case, &obs, &what) {
                 report.violation(o, w, cj.clone(), d, ordinal);
             }
             if nontrivial {
@@ -773,7 +806,7 @@ fn run(ctx: &Ctx, report: &mut Report) {
         report.maximum("frames_in_a_fault_free_session", (to_bob + to_alice) as u64);
         ordinal += 1;
         if ctx.mine(ordinal) {
-            one(report, Case::Fault { variant, side: 0, fault: None }, false, ordinal);
+            one(report, Case::Fault { variant, side: 0, fault: None, must_fail: false }, false, ordinal);
         }
         for side in [0u8, 1] {
             let frames = if side == 0 { to_alice } else { to_bob };
@@ -787,7 +820,8 @@ fn run(ctx: &Ctx, report: &mut Report) {
                     if !ctx.mine(ordinal) {
                         continue;
                     }
-                    one(report, Case::Fault { variant, side, fault: Some((k, fault)) }, true, ordinal);
+                    let must_fail = k == usize::MAX || k < frames;
+                    one(report, Case::Fault { variant, side, fault: Some((k, fault)), must_fail }, true, ordinal);
                 }
             }
         }
@@ -800,7 +834,8 @@ fn replay(case: &Value) -> anyhow::Result<(bool, String)> {
     match catch(|| run_case(&case)) {
         Err(p) => Ok((true, format!("panic: {p}"))),
         Ok((obs, what)) => {
-            let bad = judge(&obs, &what);
+            let mut bad = judge(&obs, &what);
+            bad.extend(judge_fault(&case, &obs, &what));
             let mut out = format!("{what}\nresult={} into_outcome={} hang={}\n", obs.sut_result, obs.into_outcome, obs.hang);
             for (o, _, d) in &bad {
                 out.push_str(&format!("FAILED {o}: {d}\n"));
